@@ -147,7 +147,8 @@ def _flake_pair(case, k=None, op=None):
     X, st = S._X, S.stats
     tn = float(st["t_nucleation"][0])
     if math.isnan(tn):
-        return {"raise": "no-nucleation"}
+        return {"raise": "NoNucleation", "site": "Snowflake.run",
+                "stage": "controlled nucleation at the end of the hold did not nucleate the vial"}
     kn = int(round(tn / 0.1))  # column kn holds the state right after the nucleation jump
     Tn = float(st["T_nucleation"][0])
     c0 = dict(dim="homogeneous", config="shelf", height=0.01, diameter=0.01, K_shelf=K, start=case["start"],
@@ -159,7 +160,7 @@ def _flake_pair(case, k=None, op=None):
         op.cnTemp = Tn + 1e-9      # the 0D model nucleates when the product reaches cnTemp
     r = u.run_real_full(c0, k=k, opcond=(op if shared_op else None))
     if r["raise"]:
-        return {"raise": r["raise"]}
+        return {"raise": r["raise"], "site": "Snowing._run_0D", "stage": r.get("stage")}
     T0, w0 = r["temp"], r["ice"]
     n0 = int(round(r["stats"][1] * 60 / 0.1))
     ws = r["const"]["solid_fraction"]
@@ -281,8 +282,8 @@ def run_impl(case):
     if kind == "flake0D":
         try:
             return _flake_pair(case)
-        except Exception as e:
-            return {"raise": core.exc_class(e)}
+        except Exception as e:  # an exception of the real code (Snowflake construction / run)
+            return {"raise": core.exc_class(e), "site": "Snowflake", "stage": repr(e)[:200]}
     if kind == "flake0D_sharedop":
         from ethz_snow.operatingConditions import OperatingConditions
         first = case["programs"][0]
@@ -297,9 +298,10 @@ def run_impl(case):
                 it["K_shelf"] = case["K_shelf"]
                 items.append(it)
         except Exception as e:
-            return {"raise": core.exc_class(e)}
+            return {"raise": core.exc_class(e), "site": "Snowflake", "stage": repr(e)[:200]}
         bad = [it for it in items if it.get("raise")]
-        return {"raise": bad[0]["raise"] if bad else None, "items": items}
+        return {"raise": bad[0]["raise"] if bad else None, "site": bad[0].get("site") if bad else None,
+                "items": items}
     if kind == "flake0D_sweep":
         # one heat-transfer dict for the whole sweep: Snowflake and Snowing built from it alternately
         k = {"int": 0, "ext": 0, "s0": case["K_list"][0], "s_sigma_rel": 0}
@@ -310,9 +312,10 @@ def run_impl(case):
                 it["K_shelf"] = K
                 items.append(it)
         except Exception as e:
-            return {"raise": core.exc_class(e)}
+            return {"raise": core.exc_class(e), "site": "Snowflake", "stage": repr(e)[:200]}
         bad = [it for it in items if it.get("raise")]
-        return {"raise": bad[0]["raise"] if bad else None, "items": items}
+        return {"raise": bad[0]["raise"] if bad else None, "site": bad[0].get("site") if bad else None,
+                "items": items}
     if kind == "thin":
         return _thin(case)
     if kind == "plan":
@@ -380,9 +383,12 @@ def _flake_preds(impl, tag=""):
 
 def predicates(case, impl):
     out = []
-    if impl.get("raise"):
-        return out
     kind = case.get("kind")
+    if impl.get("raise"):
+        # every case of this check is built to complete: a raise of the real code is a failure
+        site = impl.get("site") or {"radial2D": "_run_2D", "pair2D1D": "_run_2D/_run_1D", "thin": "_run_1D/_run_0D"}.get(kind, str(kind))
+        return [Failure(clause="total", key=f"raises|{site}|{impl['raise']}",
+                        detail=f"{kind}: the real code raises {impl['raise']} ({impl.get('stage')}) on a case built to complete")]
     if kind == "radial2D":
         r = impl.get("radial")
         if r and case["config"] != "jacket" and r["max"] > 1e-9:
@@ -400,15 +406,11 @@ def predicates(case, impl):
                         f"heat flux applied by the 2D model (inferred from consecutive fields) is {tf['q_applied']:.6g} "
                         f"W/m2, the boundary condition of the 1D model gives {tf['q_expected']:.6g} W/m2 "
                         f"(liquid law {tf.get('q_liquid')}, ice law {tf.get('q_ice')})")))
-        ev = None
-        if ev and ev["n"] > 0 and ev["worst_rel"] > 1e-6:
-            qa, ql, qi, Tt = ev["vals"]
-            out.append(Failure(
-                clause="evap2D_eq_evap1D", key="evap2D_eq_evap1D|_run_2D|cooling-stage",
-                detail=(f"cooling stage, vacuum window, reported row {ev['row']}: the evaporative heat flux applied at "
-                        f"the top ({qa:.6g} W/m2 at {Tt:.3f} K) differs from the liquid-surface law used by the 1D model "
-                        f"({ql:.6g}) by {100 * ev['worst_rel']:.1f} %; it equals the ice law ({qi:.6g})")))
     elif kind == "pair2D1D":
+        if not impl.get("n_compared") or not impl.get("n_late"):
+            out.append(Failure(clause="observation", key=f"observation_broken|pair2D1D|{case['config']}",
+                               detail=f"no rows could be compared between the 2D and the 1D run "
+                                      f"(cooling {impl.get('n_compared')}, after nucleation {impl.get('n_late')})"))
         if impl["gap_cooling"] > 0.25:
             out.append(Failure(clause="column_eq_1D", key=f"column_eq_1D|_run_2D|{case['config']}",
                                detail=f"2D columns differ from the 1D model of equal cross-section by "
@@ -462,7 +464,8 @@ def classify(case, impl):
 
 
 def nontrivial(case, impl):
-    return not impl.get("raise")
+    # the `plan` cases tie an optimisation of the MODEL to SnowModel/Simpson.lean and SciPy; they are not inputs of /repo
+    return case.get("kind") != "plan" and not impl.get("raise")
 
 
 def cases(rng, tier):
